@@ -13,6 +13,70 @@ IMPORTS = ('From SV Require Import Base.Sym Base.Tensor Gen.PhasePerm Model.SymI
 SYMS = ['Z2', 'U1', 'Z2Z2', 'U1U1']
 MODES = {'auto': 'MAuto', 'fused': 'MFused', 'blockwise': 'MBlockwise'}
 
+# ---- translator tie of the contraction front end (Gen/FtdotGen.v, tr/gen_ftdot.py: tensordot_fermionic and
+# FermionicArray.__matmul__ translated from the current source): own imports and own shards, so that the hand-model
+# cases keep evaluating when the generated file is missing.  The generated functions are instantiated with the hand
+# model's records (index G, tensor R), its block movement a_transpose and its block-by-block abelian contraction. ----
+IMPORTS_GEN = ('From SV Require Import Base.Sym Base.Tensor Gen.PhasePerm Gen.OpOrder Gen.PhasesGen Gen.OddposGen Gen.FtdotGen '
+               'Model.SymInst Model.Sectors Model.Array Model.Arith.\n')
+GEN_PRE = '''Definition ft_ixsz (G : Symmetry) (ix : index G) : Z := Z.of_nat (size_total G ix).
+Definition ft_amove (G : Symmetry) (R : Ring) (ix : list (index G)) (bl : list (list (C G) * tensor R)) (axes : list Z) :=
+  let y := a_transpose G R (mkA G R ix (ident G) bl) (map Z.to_nat axes) in (indices G R y, blocks G R y).
+Definition ft_arr (G : Symmetry) (R : Ring) (r : list (index G) * C G * list (list (C G) * tensor R)) : aarray G R :=
+  let '(ix, ch, bl) := r in mkA G R ix ch bl.
+Definition ft_tri (G : Symmetry) (R : Ring) (x : aarray G R) := (indices G R x, charge G R x, blocks G R x).
+Definition ft_atd (G : Symmetry) (R : Ring) x y (xa xb : list Z) :=
+  option_map (ft_tri G R) (a_tensordot G R (ft_arr G R x) (ft_arr G R y) (inr (xa, xb)) MBlockwise).
+Definition ft_amm (G : Symmetry) (R : Ring) x y := option_map (ft_tri G R) (a_matmul G R (ft_arr G R x) (ft_arr G R y)).
+Definition ft_td (G : Symmetry) (R : Ring) :=
+  tensordot_fermionic_gen G (tensor R) (tneg R) (index G) (idual G) (ft_ixsz G) (dflt_index G) (ft_amove G R) (ft_atd G R).
+Definition ft_mm (G : Symmetry) (R : Ring) :=
+  matmul_fermionic_gen G (tensor R) (tneg R) (index G) (idual G) (dflt_index G) (ft_amm G R).
+Definition tbl_eqb (G : Symmetry) := list_eqb (pair_eqb (list_eqb (ceqb G)) Z.eqb).
+Definition ft_same (G : Symmetry) (R : Ring)
+  (r : ft_result (list (index G) * C G * list (list (C G) * tensor R) * list (list (C G) * Z) * list op) (tensor R))
+  (y : aarray G R) (ph : list (list (C G) * Z)) (odd : list op) : bool :=
+  match r with
+  | FtArray s => list_eqb (index_eqb G) (st_indices s) (indices G R y) && ceqb G (st_charge s) (charge G R y)
+                 && blocks_eqb_strict G R (st_blocks s) (blocks G R y) && tbl_eqb G (st_phases s) ph
+                 && list_eqb op_eq (st_oddpos s) odd
+  | _ => false
+  end.
+Definition ft_same_scalar (G : Symmetry) (R : Ring)
+  (r : ft_result (list (index G) * C G * list (list (C G) * tensor R) * list (list (C G) * Z) * list op) (tensor R))
+  (v : option (tensor R)) : bool :=
+  match r, v with FtScalar t, Some u => tensor_eqb R t u | FtZero, None => true | _, _ => false end.
+'''
+
+
+def gtable(ph):
+    """the pending-sign dict as it is: every item, in insertion order"""
+    return '[' + '; '.join('(%s, %s)' % (gen.gsec(s), gen.gnum(int(v))) for s, v in ph.items()) + ']'
+
+
+def gstate(x, sym, ring):
+    """the state (indices, charge, blocks, sign table, labels) of a FermionicArray"""
+    return '(%s, %s, %s, %s, %s)' % (
+        '[' + '; '.join(gen.gindex(ix, sym) for ix in x.indices) + ']', gen.gch(x.charge),
+        '[' + '; '.join('(%s, %s)' % (gen.gsec(s), gen.gtensor(b, ring)) for s, b in x.blocks.items()) + ']',
+        gtable(x.phases), gen.goddpos(x.oddpos))
+
+
+def gsame(sym, ring, call, y):
+    """the generated front end's whole result against the array the implementation returned: index tables, charge, blocks
+    (values and order), the sign table (items and order), the labels"""
+    return 'ft_same %s %s (%s) %s %s %s' % (sym, ring, call, gen.garray(y, sym, ring), gtable(y.phases), gen.goddpos(y.oddpos))
+
+
+def gscalar(sym, ring, call, v):
+    """the scalar return path: the literal 0.0 (no block stored) or the block of the empty sector"""
+    want = 'None' if type(v) is float else '(Some %s)' % gen.gtensor(np.asarray(v), ring)
+    return 'ft_same_scalar %s %s (%s) %s' % (sym, ring, call, want)
+
+
+def gaxes_int(k):
+    return '(inl %s)' % gen.gnum(k)
+
 
 def describe(x):
     return {'class': type(x).__name__, 'charge': x.charge, 'oddpos': [repr(o) for o in x.oddpos],
@@ -125,6 +189,9 @@ def run(ctx):
     rng = ctx.rng
     n_cases = 1200 if ctx.thorough else 200
     exprs, meta, found = [], [], []
+    gexprs, gmeta = [], []          # the generated front end (Gen/FtdotGen.v) against the implementation
+    import random as _random
+    grng = _random.Random(ctx.seed * 7919 + 303)     # own stream: the inputs of the existing cases do not move
     stats = {'a<=b': 0, 'a>b': 0, 'ket_then_bra_odd': 0, 'bra_then_ket_odd': 0, 'pending_both': 0, 'odd_odd': 0, 'odd_crossing_transpose': 0}
     # ---- tie: generated calc_phase_permutation vs Python (all perms of <= 4 axes, all parity vectors)
     from symmray.symmetries import calc_phase_permutation as cpp
@@ -200,6 +267,10 @@ def run(ctx):
             exprs.append('match f_tensordot %s %s %s %s %s with Some c => farray_eqb %s c %s | None => false end' % (
                 A, gen.gfarray(a, sym, ring), gen.gfarray(b, sym, ring), gaxes_spec(axa, axb), MODES[mode], A, gen.gfarray(c, sym, ring)))
             meta.append(('tensordot-' + mode, sym, k))
+            if mode == 'blockwise':
+                # the GENERATED tensordot_fermionic on the states of a and b: the whole state of the result
+                gexprs.append(gsame(sym, ring, 'ft_td %s %s %s %s true' % (A, gstate(a, sym, ring), gstate(b, sym, ring), gaxes_spec(axa, axb)), c))
+                gmeta.append(('tensordot_fermionic', sym, k))
         if axa and (a.phases or b.phases or a.oddpos or b.oddpos):
             ctx.nontrivial(('tdot', sym, str(sorted(a.blocks)), str(sorted(b.blocks)), str(axa), str(axb), str(sorted(a.phases)), len(a.oddpos), len(b.oddpos)))
         if k < 2:
@@ -231,6 +302,8 @@ def run(ctx):
                 exprs.append('match f_matmul %s %s %s with Some c => farray_eqb %s c %s | None => false end' % (
                     AM, gen.gfarray(m1, sym, ringm), gen.gfarray(m2, sym, ringm), AM, gen.gfarray(c, sym, ringm)))
                 meta.append(('matmul', sym, k))
+                gexprs.append(gsame(sym, ringm, 'ft_mm %s %s %s' % (AM, gstate(m1, sym, ringm), gstate(m2, sym, ringm)), c))
+                gmeta.append(('__matmul__', sym, k))
             except Exception as e:
                 found.append({'op': 'matmul', 'symmetry': sym, 'a': describe(m1), 'b': describe(m2), 'raised': '%s: %s' % (type(e).__name__, e),
                               'replay': rl.record('matmul', {'a': m1, 'b': m2}, {'symmetry': sym})})
@@ -269,12 +342,51 @@ def run(ctx):
             exprs.append('match f_einsum %s %s %s [0%%nat; 1%%nat; 0%%nat] [1%%nat] with Some c => aarray_eqb %s %s c %s | None => false end' % (
                 sym, r3, gen.gfarray(x3, sym, r3), sym, r3, gen.garray(y.phase_sync(), sym, r3)))
             meta.append(('einsum', sym, k))
+        # ---- generated front end only (own random stream, copies of the operands, after everything else of this
+        # iteration): negative / integer `axes`, the scalar return path, products with vectors
+        try:
+            ga, gb = a.copy(), b.copy()
+            nax = [i - ga.ndim if grng.random() < 0.5 else i for i in axa]
+            nbx = [j - gb.ndim if grng.random() < 0.5 else j for j in axb]
+            if nax != list(axa) or nbx != list(axb):
+                cg = sr.tensordot(ga, gb, axes=(nax, nbx), mode='blockwise', preserve_array=True)
+                gexprs.append(gsame(sym, ring, 'ft_td %s %s %s %s true' % (A, gstate(ga, sym, ring), gstate(gb, sym, ring), gaxes_spec(nax, nbx)), cg))
+                gmeta.append(('tensordot_fermionic(negative axes)', sym, k))
+            ncon = len(axa)
+            if list(axa) == list(range(ga.ndim - ncon, ga.ndim)) and list(axb) == list(range(ncon)):
+                cg = sr.tensordot(ga, gb, axes=ncon, mode='blockwise', preserve_array=True)
+                gexprs.append(gsame(sym, ring, 'ft_td %s %s %s %s true' % (A, gstate(ga, sym, ring), gstate(gb, sym, ring), gaxes_int(ncon)), cg))
+                gmeta.append(('tensordot_fermionic(int axes)', sym, k))
+            if ga.ndim == gb.ndim == ncon:
+                sg = sr.tensordot(ga, gb, axes=(axa, axb), mode='blockwise')
+                gexprs.append(gscalar(sym, ring, 'ft_td %s %s %s %s false' % (A, gstate(ga, sym, ring), gstate(gb, sym, ring), gaxes_spec(axa, axb)), sg))
+                gmeta.append(('tensordot_fermionic(scalar path)', sym, k))
+            if k % 2 == 0:
+                # vector @ matrix, matrix @ vector, vector @ vector (scalar path of __matmul__)
+                vl = gen.rand_lazy(grng, sr, gen.rand_array(grng, sr, sym, chargemaps=[cm0], duals=[not d0], cplx=cplx, fermionic=True, oddpos=9, lo=-2, hi=2))
+                vr = gen.rand_lazy(grng, sr, gen.rand_array(grng, sr, sym, chargemaps=[cm0], duals=[d0], cplx=cplx, fermionic=True, oddpos=11, lo=-2, hi=2))
+                for nm, x, y in (('vec@mat', vl, m1), ('mat@vec', m2, vr), ('vec@vec', vl, vr)):
+                    rg = gen.ring_of(x, y)
+                    AG = '%s %s' % (sym, rg)
+                    z = x @ y
+                    call = 'ft_mm %s %s %s' % (AG, gstate(x, sym, rg), gstate(y, sym, rg))
+                    gexprs.append(gscalar(sym, rg, call, z) if nm == 'vec@vec' else gsame(sym, rg, call, z))
+                    gmeta.append(('__matmul__(%s)' % nm, sym, k))
+        except Exception as e:      # an implementation that raises here is reported by the streams above; the tie just has no case
+            ctx.extra.setdefault('generated_front_end_skipped', []).append('%s: %s' % (type(e).__name__, str(e)[:120]))
     bad_idx = common.run_cases(ctx, 'fermi', IMPORTS, '', exprs, shard=40)
+    gbad = common.run_cases(ctx, 'ftdotgen', IMPORTS_GEN, GEN_PRE, gexprs, shard=40)
     if bad_idx is None:
         tie_broken.append('cases.v (fermionic model vs implementation) did not evaluate')
     elif bad_idx:
         tie_broken += ['Model.%s disagrees with the implementation (symmetry %s, case %d)' % meta[i] for i in bad_idx[:10]]
         ctx.extra['disagreeing_cases'] = [exprs[i][:3000] for i in bad_idx[:2]]
+    if gbad is None:
+        tie_broken.append('cases.v (front end generated from tensordot_fermionic / __matmul__ vs implementation) did not evaluate')
+    elif gbad:
+        tie_broken += ['Gen.FtdotGen: the function generated from %s disagrees with the implementation (symmetry %s, case %d)' % gmeta[i]
+                       for i in gbad[:10]]
+        ctx.extra['disagreeing_generated_cases'] = [gexprs[i][:3000] for i in gbad[:2]]
     for f in found[:5]:
         ctx.violation('%s differs from the dense graded-tensor calculation' % f['op'], {'oracle': 'independent dense graded reference (harness/c03.py)', **f, 'run': rl.run_info(ctx)})
     ctx.broken += tie_broken
@@ -282,7 +394,11 @@ def run(ctx):
         ctx.violation('proof obligation or tie of C03 no longer checks',
                       {'broken': ctx.broken, 'replay': rl.record('proof_phase')}, found_input=False)
     ctx.extra['case_classes'] = stats
-    ctx.extra['tie'] = {'model_cases': len(exprs), 'phase_perm_cases': len(pexprs)}
+    gkinds = {}
+    for g in gmeta:
+        gkinds[g[0]] = gkinds.get(g[0], 0) + 1
+    ctx.extra['tie'] = {'model_cases': len(exprs), 'phase_perm_cases': len(pexprs), 'generated_front_end_cases': len(gexprs),
+                        'generated_front_end_by_kind': gkinds}
     ctx.coverage['rule'] = ('random fermionic pairs (rank 1-3, Z2/U1/Z2Z2/U1U1, random dualness, even and odd charge with int/tuple/str labels, '
                             'random sparsity, pending signs from random phase-operation prefixes, real and Gaussian-integer data) x all axes choices x '
                             'modes blockwise/fused/auto, plus transpose, matmul, trace, einsum; calc_phase_permutation exhaustively for <=4 axes; '
